@@ -231,3 +231,17 @@ package protocol
 //@   requires #recv: p != nil
 //@   ensures #kind: result != nil && fresh(result) && result.kind == "dm.pexpire"
 //@   modifies nothing
+
+// ConvertError maps an error to its protocol error; nil stays nil and a failure stays a failure.
+//@ func ConvertError(err error) error
+//@   props C05
+//@   trusted
+//@   ensures #nil_iff: (result == nil) == (err == nil)
+//@   modifies nothing
+
+//@ func (p *PutEntry) Command(ctx context.Context) *redis.StatusCmd
+//@   props C05
+//@   trusted
+//@   requires #recv: p != nil
+//@   ensures #kind: result != nil && fresh(result) && result.kind == "dm.putentry"
+//@   modifies nothing
